@@ -17,7 +17,7 @@ import signal
 import tempfile
 import time
 
-from mc import corpus, drivers as DR, faultio, jwire, pool
+from mc import corpus, drivers as DR, env, faultio, jwire, pool
 from mc.checks.c10 import consume_flat, consume_grouped
 
 LEVEL = "fault_enumeration"
@@ -174,6 +174,23 @@ def family_e3(thorough: bool = False):
                                         "max_datatype_table_size": 16})
             ent = jwire.mkrow(kind, {"id": eid, "value": "x"})
             yield "huge-entry-id", jwire.write_delimited([jwire.enc_frame([o, ent])])
+    # every numeric field of the options row at the limits of its wire type (work must not be
+    # proportional to a declared number), and the same for the ids inside terms
+    tr_b = jwire.mkrow("triple", {"s": ("bnode", "a"), "p": ("bnode", "b"), "o": ("bnode", "c")})
+    for field in ("version", "physical_type", "logical_type", "max_name_table_size",
+                  "max_prefix_table_size", "max_datatype_table_size"):
+        for v in (2**31 - 1, 2**32 - 1, 10**6, 10**8):
+            o = jwire.mkrow("options", {**opts, field: v})
+            yield "huge-options-field", jwire.write_delimited([jwire.enc_frame([o, tr_b])])
+            yield "huge-options-field", jwire.enc_frame([o, tr_b])
+    o16 = jwire.mkrow("options", {**opts, "max_prefix_table_size": 16, "max_datatype_table_size": 16})
+    for v in (2**31 - 1, 2**32 - 1):
+        for term in (("iri", v, 1), ("iri", 1, v), ("iri", v, v), ("literal", "x", None, v)):
+            rows = [o16, jwire.mkrow("prefix", {"id": 1, "value": "p"}),
+                    jwire.mkrow("name", {"id": 1, "value": "n"}),
+                    jwire.mkrow("datatype", {"id": 1, "value": "d"}),
+                    jwire.mkrow("triple", {"s": ("bnode", "a"), "p": ("iri", 1, 1), "o": term})]
+            yield "huge-term-id", jwire.write_delimited([jwire.enc_frame(rows)])
     for depth in list(range(1, 40)) + [64, 99, 100, 101, 150, 200, 1000, 20000]:
         tail = jwire.f_str(6, "p") + jwire.f_str(10, "o")
         tb = jwire.f_str(2, "x") + tail                    # innermost triple (s_bnode, p, o)
@@ -243,6 +260,14 @@ def scaling_input(kind: str, k: int) -> bytes:
         for i in range(k):
             rows.append(jwire.mkrow("name", {"id": (i % 8) + 1, "value": f"n{i}"}))
         return jwire.write_delimited([jwire.enc_frame(rows)])
+    if kind in ("integer-digits", "decimal-digits"):
+        # one typed literal whose lexical form has k digits (conversions must not be super-linear)
+        dt = "http://www.w3.org/2001/XMLSchema#" + kind.split("-")[0]
+        o = jwire.mkrow("options", {**opts, "max_datatype_table_size": 4})
+        rows = [o, jwire.mkrow("datatype", {"id": 1, "value": dt}),
+                jwire.mkrow("triple", {"s": ("bnode", "a"), "p": ("bnode", "b"),
+                                       "o": ("literal", "7" * k, None, 1)})]
+        return jwire.write_delimited([jwire.enc_frame(rows)])
     if kind == "distinct-statements":
         rows = [orow]
         for i in range(k):
@@ -254,7 +279,9 @@ def scaling_input(kind: str, k: int) -> bytes:
 
 
 SCALING = (("rows-per-frame", 50_000), ("frames", 20_000), ("entries", 50_000),
-           ("distinct-statements", 20_000))
+           ("distinct-statements", 20_000), ("integer-digits", 200_000), ("decimal-digits", 200_000))
+# (size multiplier, ratio above which growth counts as super-linear, items expected per unit)
+SCALING_STEP = {"integer-digits": (16, 24.0), "decimal-digits": (16, 24.0)}
 
 
 def scaling_shard(job) -> dict:
@@ -264,20 +291,23 @@ def scaling_shard(job) -> dict:
     acc = pool.Acc()
     for api in ("generic", "rdflib"):
         times = []
-        for mult in (1, 4):
+        step, limit = SCALING_STEP.get(kind, (4, 9.0))
+        single = kind in SCALING_STEP or kind == "entries"  # (one statement whatever the size)
+        for mult in (1, step):
             data = scaling_input(kind, k * mult)
             t0 = time.process_time()
             items, exc = consume_flat(api, io.BytesIO(data))
             times.append(time.process_time() - t0)
-            if exc is not None or len(items) < k * mult:
+            if exc is not None or len(items) < (1 if single else k * mult):
                 acc.extra["harness"] = f"scaling input {kind} x{mult} not parsed: {exc} {len(items)}"
         acc.evals += 1
         acc.nontrivial += 1
         t1, t4 = times
-        if t4 > 2.0 and t4 > 9 * max(t1, 0.02):
+        if t4 > 2.0 and t4 > limit * max(t1, 0.02):
             acc.violation({"fail": "super-linear", "family": "e4:" + kind},
                           f"{api} flat parser: {kind} of size {k} takes {t1:.2f}s CPU, size "
-                          f"{4 * k} takes {t4:.2f}s (x{t4 / max(t1, 1e-9):.1f}; linear would be x4)",
+                          f"{step * k} takes {t4:.2f}s (x{t4 / max(t1, 1e-9):.1f}; linear would be "
+                          f"x{step})",
                           {"family": "e4:" + kind, "k": k, "data": None, "thorough": thorough})
         acc.extra.setdefault("scaling", {})[f"{api}:{kind}"] = [round(t1, 3), round(t4, 3)]
     acc.sample({"family": "e4", "kind": kind, "sizes": [k, 4 * k]}, cap=1)
@@ -417,6 +447,9 @@ def run(ctx) -> None:
         os.rmdir(tmp)
     merged = pool.merge(results)
     ctx.add(merged)
+    for e in merged["extras"]:
+        if e.get("harness"):
+            raise env.HarnessError(e["harness"])
     hist: dict = {}
     for e in merged["extras"]:
         for k, v in e.get("hist", {}).items():
